@@ -114,8 +114,12 @@ func runC01(c *mon.Ctx) {
 				}
 				for r := 0; r < reps; r++ {
 					a := g.Valid(p)
+					ext := ""
+					if claim != "profile" && r%2 == 1 {
+						ext = maybeExt(g, a, 1) // same rules on the extension profile embedding this base
+					}
 					v.Apply(a, g)
-					sig := fmt.Sprintf("P%d|%s=%s", p, claim, v.Name)
+					sig := fmt.Sprintf("P%d|%s=%s%s", p, claim, v.Name, ext)
 					c.Sig(sig)
 					c.Count("sweep-cases")
 					checkAgainstModel(c, "C01", a, g, sig)
@@ -179,7 +183,7 @@ func runC01(c *mon.Ctx) {
 			}
 			c.Count("product-cases")
 		}
-		s := fmt.Sprintf("P%d|%s", p, sig)
+		s := fmt.Sprintf("P%d|%s%s", p, sig, maybeExt(g, a, 5))
 		if len(sig) > 0 {
 			c.Sig(s)
 		}
@@ -210,7 +214,13 @@ func runC01(c *mon.Ctx) {
 		sig := fmt.Sprintf("history|P%d|%s=%s", p, claim, v.Name)
 		det := map[string]any{"sig": sig, "before": abstractSample(a), "after": abstractSample(b)}
 		if pn, pv, fr := mon.Guard(func() {
-			x, err := obs.Build(a)
+			var x psatoken.IClaims
+			var err error
+			if i%2 == 0 && (a.NoMeas == nil || *a.NoMeas == 1) {
+				x, err = obs.SetterBuild(a) // NewClaims + setters: shares whatever the factory shares
+			} else {
+				x, err = obs.Build(a)
+			}
 			if err != nil {
 				c.Count("route-unbuildable:direct")
 				return
@@ -219,6 +229,33 @@ func runC01(c *mon.Ctx) {
 			wantA := a.Expect()
 			if d := model.ObsDiff(&wantA, &first); d != "" {
 				return // the plain sweeps report this
+			}
+			// nothing done to ANOTHER object of the same kind may matter either:
+			// create a sibling the way x was created and scribble all over it
+			if sib, serr := psatoken.NewClaims(a.Canon); serr == nil {
+				if q := obs.P2Of(sib); q != nil {
+					if q.Profile != nil {
+						_ = q.Profile.Set("http://example.com/scribbled")
+					}
+					q.CanonicalProfile = "scribbled"
+				} else if q := obs.P1Of(sib); q != nil {
+					if q.Profile != nil {
+						*q.Profile = "SCRIBBLED"
+					}
+					q.CanonicalProfile = "scribbled"
+				}
+				_ = sib.SetSecurityLifeCycle(0x3000)
+				if q := obs.P2Of(sib); q != nil && q.SecurityLifeCycle != nil {
+					*q.SecurityLifeCycle = 0xffff
+				} else if q := obs.P1Of(sib); q != nil && q.SecurityLifeCycle != nil {
+					*q.SecurityLifeCycle = 0xffff
+				}
+				if again := obs.Observe(x); model.ObsDiff(&wantA, &again) != "" {
+					det["want"], det["got"] = wantA.String(), again.String()
+					c.Violation(fmt.Sprintf("C01/sibling/P%d/%s", p, obsKey(&wantA, &again)), "the verdict / getters of a claims-set changed after ANOTHER claims-set of the same profile was created and modified", det)
+					return
+				}
+				c.Count("history:sibling-scribbled")
 			}
 			retained, _ := x.GetSoftwareComponents()
 			_, _ = psatoken.ValidateAndEncodeClaimsToCBOR(x)
